@@ -13,9 +13,10 @@
   the driver on the real inputs:
     `GenomeOk g`            - node ids pairwise different, every gene endpoint / module wire names a genome node,
                               control-node ids fresh;
-    `enabledMods g = []`    - for the edge / From / To theorems only (no enabled module): with enabled modules these
-                              queries are covered by the correspondence and the executable specification only
-                              (`ctrl_overlap_legacy_counterexample`: the pre-513f15a code was wrong there).
+    `enabledMods g = []`    - for the edge / From / To theorems of THIS file only (no enabled module); the general
+                              versions for any number of enabled modules are in Props/C11Mod.lean
+                              (`edge_spec_modular`, `hasEdgeBetween_spec_modular`, `from_to_spec_modular`).
+                              `ctrl_overlap_legacy_counterexample`: the pre-513f15a code was wrong there.
 -/
 import GoNeat.Proofs.Genesis
 import GoNeat.Model.LegacyGenesis
